@@ -15,6 +15,7 @@ pub const START_DOCS: &[&str] = &[
     "<!DOCTYPE r [<!ENTITY e \"ee\"><!ATTLIST a d CDATA \"dv\">]><r>t1<a n=\"1\">&e;<![CDATA[cd]]></a><b><c><d>deep</d></c></b></r>",
     "<r xmlns:p=\"urn:p\"><p:a p:k=\"1\">\u{e9}\u{1F600}</p:a><b>one</b>two<b>three</b></r>",
     "<?x y?><r><!--c1--><a>a-b-c</a><b>]]</b><c>1</c></r><!--end-->",
+    "<r><!--a-b-c--><![CDATA[]]x>]]><t>]]x></t><u q=\"x'\">-</u><!---x--></r>",
 ];
 
 /// strings for names and data: harmless, markup-significant, multi-byte
